@@ -58,6 +58,15 @@ def clock(c):
         except Exception as e: return {"enc": "raised", "exc": type(e).__name__}
         try: back = tools.hexadecimale_timestamp_to_localtime(hx.encode())
         except Exception: back = "raised"
+        # ... and as a device lists it: the value as the end of a slot that starts at the value encoded before it in this process, and as the
+        # start of a slot that ends there (a one-off slot: no days) - a slot's two clock readings are those of its two stamps
+        prev = getattr(clock, "prev", None) or hx; clock.prev = hx
+        try:
+            msg = bytes(45) + bytes([1, 1, 0, 1]) + bytes.fromhex(prev) + bytes.fromhex(hx) + bytes(4) + bytes([2, 1, 0, 1]) + bytes.fromhex(hx) + bytes.fromhex(prev) + bytes(4) + bytes(4)
+            got = {x.schedule_id: x for x in get_schedules(msg)}
+            listed = (got["1"].end_time, got["2"].start_time)
+        except Exception as e: listed = ("raised " + type(e).__name__,) * 2
+        if back != "raised" and listed != (back, back): back = "%s by the decoder, but %s as the end and %s as the start of a listed slot" % (back, listed[0], listed[1])
     t = struct.unpack("<I", bytes.fromhex(hx))[0]
     return {"enc": hx, "t": t, "back": back, "facts_t": local_facts(t), "facts_now": local_facts(c["now"])}
 
@@ -88,7 +97,9 @@ def next_run(c):
         # the text as applications get it: the `display` of a schedule object (a recurring schedule with these days and this start)
         if txt != "raised" and (int(c["now"]) // 60 + len(c["days"]) + sum(map(ord, c["start"]))) % 2 == 0:
             from aioswitcher.schedule.parser import SwitcherSchedule
-            try: shown = SwitcherSchedule(str(int(c["now"]) % 8), bool(c["days"]), {DAYS[i] for i in c["days"]}, c["start"], "23:59").display
+            # (the `recurring` flag is a field of its own: the text follows the day set whatever the flag says - an edited schedule may carry either)
+            flag = bool(c["days"]) if (int(c["now"]) // 60) % 4 else not c["days"]
+            try: shown = SwitcherSchedule(str(int(c["now"]) % 8), flag, {DAYS[i] for i in c["days"]}, c["start"], "23:59").display
             except Exception as e:
                 shown = "raised " + type(e).__name__
                 try: tools.calc_duration(c["start"], "23:59")
